@@ -609,6 +609,11 @@ static void cl_check(const Json& c, Out& o) {
     if (dist <= 0.6 + 1e-9) { o.label("label:correct"); return; }
     bool fft_order = false;
     for (int q : cand) fft_order |= (obs == fftidx(q));
+    // the recorded finding is exactly: pxx in FFT order against the centred axis (-n/2+1 .. n/2)/n.  Any other axis that mislabels
+    // the peak (shifted by one, scaled, reversed ...) is a different failure and is reported as such.
+    bool centred_axis = true;
+    for (int i = 0; i < n; ++i) centred_axis = centred_axis && std::fabs(got.f[i] - double(i - n / 2 + 1) / n) <= 1e-12;
+    fft_order = fft_order && centred_axis;
     o.label(fft_order ? "label:fft-order (known defect)" : "label:other-mislabel");
     o.fail(fft_order ? "welch-complex:fft-order-vs-centred-f" : "welch-complex:label",
            fmt("complex tone at %.4f bins (f=%.10g): argmax(pxx)=%d but f[%d]=%.10g, %.2f bins from the tone%s (nfft=%d winlen=%d overlap=%d N=%ld %s)",
